@@ -4,6 +4,7 @@ import (
 	"context"
 	"fmt"
 	"math"
+	"strings"
 	"sync"
 )
 
@@ -256,10 +257,23 @@ func (v *VLANAllocator) LoadFromStore(ctx context.Context, ntes []*NTE) error {
 	v.mu.Lock()
 	defer v.mu.Unlock()
 
+	var rejected []string
 	for _, nte := range ntes {
 		if nte.STag == 0 || nte.CTag == 0 {
 			continue
 		}
+
+		// A stored pair must lie in the configured ranges and must not belong to another NTE
+		if !v.config.STagRange.contains(nte.STag) || !v.config.CTagRange.contains(nte.CTag) {
+			rejected = append(rejected, fmt.Sprintf("%s: (%d,%d) outside configured ranges", nte.ID, nte.STag, nte.CTag))
+			continue
+		}
+		if owner, used := v.sTagUsage[nte.STag][nte.CTag]; used && owner != nte.ID {
+			rejected = append(rejected, fmt.Sprintf("%s: (%d,%d) already held by %s", nte.ID, nte.STag, nte.CTag, owner))
+			continue
+		}
+		// An NTE listed again moves to the new pair; its previous pair becomes free
+		v.releaseUnlocked(nte.ID)
 
 		alloc := &VLANAllocation{
 			STag:  nte.STag,
@@ -274,6 +288,9 @@ func (v *VLANAllocator) LoadFromStore(ctx context.Context, ntes []*NTE) error {
 		v.sTagUsage[nte.STag][nte.CTag] = nte.ID
 	}
 
+	if len(rejected) > 0 {
+		return fmt.Errorf("VLAN allocations not loaded: %s", strings.Join(rejected, "; "))
+	}
 	return nil
 }
 
